@@ -1,6 +1,6 @@
 From Coq Require Import ZArith List Bool.
 Import ListNotations.
-Require Import GV.Model.Authority GV.Model.Auth_io GV.Spec.C10_spec.
+Require Import GV.Model.IO GV.Model.Authority GV.Model.Auth_io GV.Model.C01a_io GV.Spec.C10_spec.
 Local Open Scope Z_scope.
 Definition c10_check (l o : list Z) : bool :=
   match acase_of l, asteps_of o with
@@ -11,3 +11,53 @@ Definition c10_nontriv (l o : list Z) : bool :=
   match asteps_of o with
   | Some st => existsb (fun s => match as_sigs s with (7 :: _) :: _ => true | _ => false end) st
   | None => false end.
+
+(* ---- histories with control cycles during which the interface refuses every write (case prefix 2000,
+   event code 10): the cycle does everything it does otherwise, only no frame reaches the bus ---- *)
+Inductive fevent := FE (e : aevent) | FTickFail.
+Definition ferase (ev : fevent) : aevent := match ev with FE e => e | FTickFail => ATick end.
+Definition fstep (a : auth) (now : Z) (ev : fevent) : auth * Z * astep :=
+  match ev with
+  | FE e => astep1 a now e
+  | FTickFail => let '(a', now', s) := astep1 a now ATick in (a', now', {| as_frames := []; as_sigs := as_sigs s |})
+  end.
+Fixpoint frun (a : auth) (now : Z) (evs : list fevent) : list astep :=
+  match evs with
+  | [] => []
+  | e :: t => let '(a', now', s) := fstep a now e in s :: frun a' now' t
+  end.
+Fixpoint dec_fevents (fuel : nat) (l : list Z) : option (list fevent) :=
+  match fuel with
+  | O => match l with [] => Some [] | _ => None end
+  | S fuel' =>
+      match l with
+      | [] => Some []
+      | 10 :: t => option_map (cons FTickFail) (dec_fevents fuel' t)
+      | _ => match dec_aevent1 l with
+             | Some (e, r) => option_map (cons (FE e)) (dec_fevents fuel' r)
+             | None => None end
+      end
+  end.
+Definition fcase_of (l : list Z) : option (acase * list fevent) :=
+  match ahead_of l with
+  | Some (addr, nm, cs, r) =>
+      match dec_fevents (length r) r with
+      | Some fe => Some ({| ac_addr := addr; ac_name := nm; ac_confs := cs; ac_events := map ferase fe |}, fe)
+      | None => None end
+  | None => None end.
+Definition fmodel (c : acase) (fe : list fevent) : list astep :=
+  frun (auth_new 0 (ac_addr c) (ac_name c) (ac_confs c)) 0 fe.
+Definition c10f_run (l : list Z) : list Z :=
+  match fcase_of l with
+  | Some (c, fe) => if encoder_addr_panics c then panic_obs else
+                    let steps := fmodel c fe in Z.of_nat (length steps) :: flat_map enc_astep steps
+  | None => bad_case end.
+(* the property does not mention the interface: the same predicate, on the history with the failing cycles
+   read as cycles *)
+Definition c10f_check (l o : list Z) : bool :=
+  match fcase_of l, asteps_of o with
+  | Some (c, _), Some st => implb (c10_wf c) (c10_spec_ok c st)
+  | _, _ => false end.
+
+Definition c10x_run (l : list Z) : list Z := match l with 2000 :: rest => c10f_run rest | _ => auth_run l end.
+Definition c10x_check (l o : list Z) : bool := match l with 2000 :: rest => c10f_check rest o | _ => c10_check l o end.
